@@ -246,6 +246,7 @@ type rootDep struct {
 	Alias string // npm only: the entry is "Alias": "npm:Name@Req"
 	Opt   bool   `json:",omitempty"` // npm only: the entry sits in optionalDependencies
 	Prop  string `json:",omitempty"` // Maven only: <version>${Prop}</version>, the pom defining <Prop>Req</Prop>
+	Level int    `json:",omitempty"` // Maven only: the pom that declares the entry, 0 = the manifest itself, k = its k-th local parent
 }
 type e2eCase struct {
 	Eco         string // "n" npm / relax, "m" Maven / override
@@ -260,6 +261,12 @@ type e2eCase struct {
 	DevDeps     bool
 	MaxDepth    int
 	Levels      map[string]int
+	// Maven only: the manifest is the last module of a multi-module layout top/[mid/]app with Parents local parent poms (0 = single
+	// file).  OmitIDs[k]: the k-th pom (0 = the manifest) leaves out <groupId>/<version> and inherits them from its own parent;
+	// ExplicitRP[k]: it spells <relativePath>../pom.xml</relativePath> out instead of relying on the default.
+	Parents    int    `json:",omitempty"`
+	OmitIDs    []bool `json:",omitempty"`
+	ExplicitRP []bool `json:",omitempty"`
 }
 
 func (c e2eCase) line() string {
@@ -298,6 +305,9 @@ func writeRoot(c e2eCase, dir string) string {
 		must(os.WriteFile(p, []byte(s), 0o644))
 		return p
 	}
+	if c.Parents > 0 {
+		return writeChain(c, dir)
+	}
 	var sb strings.Builder
 	sb.WriteString("<project>\n  <modelVersion>4.0.0</modelVersion>\n  <groupId>root.g</groupId>\n  <artifactId>root-a</artifactId>\n  <version>1.0</version>\n")
 	var props []string
@@ -328,6 +338,80 @@ func writeRoot(c e2eCase, dir string) string {
 	return p
 }
 
+// writeChain lays out top/[mid/]app: level Parents is the top parent in dir itself, every level below in a sub-directory of the one
+// above; the manifest is level 0.  Each pom declares the Root entries of its level in <dependencies> with explicit versions.
+func writeChain(c e2eCase, dir string) string {
+	at := func(level int) string {
+		p := dir
+		for l := c.Parents - 1; l >= level; l-- {
+			p = filepath.Join(p, fmt.Sprintf("m%d", l))
+		}
+		return p
+	}
+	flag := func(bs []bool, i int) bool { return i < len(bs) && bs[i] }
+	for level := c.Parents; level >= 0; level-- {
+		var sb strings.Builder
+		w := func(s string) { sb.WriteString(s + "\n") }
+		w("<project>")
+		w("  <modelVersion>4.0.0</modelVersion>")
+		if level < c.Parents {
+			w("  <parent>\n    <groupId>chain.g</groupId>")
+			w(fmt.Sprintf("    <artifactId>level%d</artifactId>\n    <version>7.0</version>", level+1))
+			if flag(c.ExplicitRP, level) {
+				w("    <relativePath>../pom.xml</relativePath>")
+			}
+			w("  </parent>")
+		}
+		omit := level < c.Parents && flag(c.OmitIDs, level)
+		if !omit {
+			w("  <groupId>chain.g</groupId>")
+		}
+		w(fmt.Sprintf("  <artifactId>level%d</artifactId>", level))
+		if !omit {
+			w("  <version>7.0</version>")
+		}
+		if level > 0 {
+			w("  <packaging>pom</packaging>")
+		}
+		var props []string
+		for _, d := range c.Root {
+			if d.Level == level && d.Prop != "" {
+				props = append(props, "    <"+d.Prop+">"+d.Req+"</"+d.Prop+">")
+			}
+		}
+		if len(props) > 0 {
+			w("  <properties>\n" + strings.Join(props, "\n") + "\n  </properties>")
+		}
+		any := false
+		for _, d := range c.Root {
+			if d.Level != level {
+				continue
+			}
+			if !any {
+				w("  <dependencies>")
+				any = true
+			}
+			g, a, _ := strings.Cut(d.Name, ":")
+			ver := d.Req
+			if d.Prop != "" {
+				ver = "${" + d.Prop + "}"
+			}
+			w("    <dependency>\n      <groupId>" + g + "</groupId>\n      <artifactId>" + a + "</artifactId>\n      <version>" + ver + "</version>")
+			if d.Dev {
+				w("      <scope>test</scope>")
+			}
+			w("    </dependency>")
+		}
+		if any {
+			w("  </dependencies>")
+		}
+		w("</project>")
+		must(os.MkdirAll(at(level), 0o755))
+		must(os.WriteFile(filepath.Join(at(level), "pom.xml"), []byte(sb.String()), 0o644))
+	}
+	return filepath.Join(at(0), "pom.xml")
+}
+
 // entry is one manifest entry as Read reports it: package name, what else identifies the entry (npm: the
 // alias; Maven: origin|type|classifier), and the requirement.
 type entry struct{ name, disc, ver string }
@@ -352,7 +436,10 @@ func readReqs(c e2eCase, path string) ([]entry, error) {
 		rw, err = guidedremediation.VerifMavenReadWriter("http://127.0.0.1:1/")
 	}
 	must(err)
-	m, err := rw.Read(filepath.Base(path), scalibrfs.DirFS(filepath.Dir(path)))
+	// from the file system root, as FixVulns opens a manifest: a local parent lies outside the manifest's own directory
+	abs, err := filepath.Abs(path)
+	must(err)
+	m, err := rw.Read(strings.TrimPrefix(filepath.ToSlash(abs), "/"), scalibrfs.DirFS("/"))
 	if err != nil {
 		return nil, err
 	}
@@ -632,6 +719,40 @@ func genE2EVersionProperty(r *rand.Rand) e2eCase {
 	return c
 }
 
+// genE2EParentChain: Maven/override on a multi-module layout: the manifest (app) has one or two local parent poms; dependency-free
+// direct packages are declared, with explicit versions, at any level — a vulnerable one usually in a PARENT's <dependencies>.  A pom below
+// the top may leave out its own <groupId>/<version> (inherited), <relativePath> may be left to its default.  The fix has to be written
+// into the parent file: a fresh analysis of the written layout finds the fixed vulnerabilities gone.
+func genE2EParentChain(r *rand.Rand) e2eCase {
+	c := e2eCase{Eco: "m", Table: e2eMvnVers, MaxUpgrades: []int{1, 1, 0, 2}[r.Intn(4)], NoIntroduce: r.Intn(4) == 0, DevDeps: true, MaxDepth: -1, Levels: map[string]int{},
+		Parents: 1 + r.Intn(2)}
+	for l := 0; l <= c.Parents; l++ {
+		c.OmitIDs = append(c.OmitIDs, r.Intn(2) == 0)
+		c.ExplicitRP = append(c.ExplicitRP, r.Intn(2) == 0)
+	}
+	names := []string{"g:alpha", "org.x:dot.ted", "g:beta"}
+	n := 1 + r.Intn(3)
+	nv := 0
+	for i := 0; i < n; i++ {
+		c.Pkgs = append(c.Pkgs, remx.Pkg{Name: names[i], Versions: c.Table})
+		at := r.Intn(3)
+		d := rootDep{Name: names[i], Req: c.Table[at], Level: r.Intn(c.Parents + 1)}
+		vulnerable := r.Intn(4) != 0 || (i == n-1 && nv == 0)
+		if vulnerable && r.Intn(3) != 0 {
+			d.Level = 1 + r.Intn(c.Parents) // in a parent
+		}
+		if r.Intn(6) == 0 {
+			d.Prop = fmt.Sprintf("dep%d.version", i+1) // defined in the pom that declares the entry
+		}
+		c.Root = append(c.Root, d)
+		if vulnerable {
+			nv++
+			c.Vulns = append(c.Vulns, remx.VulnSpec{ID: vid(nv), Pkg: names[i], Introduced: -1, Fixed: at + 1 + r.Intn(len(c.Table)-at-1), Last: -1})
+		}
+	}
+	return c
+}
+
 func genE2E(r *rand.Rand) e2eCase {
 	switch r.Intn(8) {
 	case 0, 1:
@@ -640,6 +761,8 @@ func genE2E(r *rand.Rand) e2eCase {
 		return genE2EIgnoreIntroduced(r)
 	case 3:
 		return genE2EVersionProperty(r)
+	case 4:
+		return genE2EParentChain(r)
 	}
 	c := e2eCase{Eco: "n", Table: e2eNpmVers, MaxUpgrades: []int{1, 1, 1, 0, 2}[r.Intn(5)], NoIntroduce: r.Intn(4) == 0, DevDeps: r.Intn(4) != 0, MaxDepth: []int{-1, -1, 1, 2}[r.Intn(4)], Levels: map[string]int{}}
 	names := []string{"alpha", "socket.io", "@scope/beta", "tee"}
